@@ -3,7 +3,7 @@ PROP = {
     "props_v": "Props/C14.v",
     "extra_v": ["ServerRun.v"],
     "gen_bins": ["prod", "test"],
-    "gen_obligations": ["c14_order_ok@ConstsProd,ConstsTest", "c14_rate@ConstsProd"],
+    "gen_obligations": ["c14_order_ok@ConstsProd,ConstsTest", "c14_rate@ConstsProd", "c14_limiter_is_one_object@SkelServer"],
     "suites": [("test", "archive")],
     "assumptions": [
         "a read(2) of a whole file and an append write(2) are atomic with respect to each other (the repository's own assumption, README 'File Writing and Archiving'); torn reads of a multi-page record are outside the model",
